@@ -15,6 +15,36 @@ WORDS = ["has_child", "max", "min", "name", "parent", "unique", "distinct", "abc
          "_", "+1", " 1", "1_0"]
 
 
+# BFS alphabet: the significant characters plus keyword names as single symbols
+BFS_SYMBOLS = ALPHABET + ["max", "has_child", "name", "parent", "-1", "1:2", "ab"]
+# ordinary characters the state machine treats alike (a change to the code may not), appended to covers
+ODD = ["{", "}", "#", "@", "_", "|", "`", ";", "?", "é", "²", "①", "٣", "\t", "\n", "\x00", "0", "z", "A"]
+
+
+def state_cover(max_states=20000, max_depth=14):
+    """Model-based generation: breadth-first search over the abstract states of the Lean parser model
+    (driver op C14.state); returns one shortest representative text per reachable abstract state."""
+    drv = core.Driver()
+    reps = {}
+    frontier = [""]
+    seen = set()
+    depth = 0
+    while frontier and depth < max_depth and len(reps) < max_states:
+        cand = [f + a for f in frontier for a in BFS_SYMBOLS]
+        outs = drv.ask([{"op": "C14.state", "t": c} for c in cand])
+        nxt = []
+        for c, o in zip(cand, outs):
+            st = o["s"]
+            if st == "ERR" or st in seen:
+                continue
+            seen.add(st)
+            reps[st] = c
+            nxt.append(c)
+        frontier = nxt
+        depth += 1
+    return sorted(reps.values(), key=lambda t: (len(t), t))
+
+
 class ParseTimeout(Exception):
     pass
 
